@@ -2,6 +2,7 @@
 
 use super::{ShardId, ShardKey, ShardMetadata};
 use crate::{Error, Result};
+use dashmap::mapref::entry::Entry;
 use dashmap::DashMap;
 use std::time::{Duration, Instant};
 
@@ -73,19 +74,26 @@ impl ShardRouter {
     /// prevent stale metadata from overwriting fresher data.
     pub fn update_routing(&self, shard: ShardMetadata) {
         let shard_id = shard.shard_id.clone();
-        // Only update if the new generation is >= the cached generation
-        if let Some(existing) = self.cache.get(&shard_id) {
-            if shard.generation < existing.shard.generation {
-                return; // Reject stale update
+        // Only update if the new generation is >= the cached generation. The check and
+        // the store happen under the entry's lock, so a concurrent older update cannot
+        // slip in between them.
+        match self.cache.entry(shard_id) {
+            Entry::Occupied(mut existing) => {
+                if shard.generation < existing.get().shard.generation {
+                    return; // Reject stale update
+                }
+                existing.insert(RoutingEntry {
+                    shard,
+                    cached_at: Instant::now(),
+                });
+            }
+            Entry::Vacant(slot) => {
+                slot.insert(RoutingEntry {
+                    shard,
+                    cached_at: Instant::now(),
+                });
             }
         }
-        self.cache.insert(
-            shard_id,
-            RoutingEntry {
-                shard,
-                cached_at: Instant::now(),
-            },
-        );
     }
 
     /// Invalidate routing for a shard
